@@ -135,6 +135,10 @@ var endpoints = []endpoint{
 func ZZ_C06_e2e() {
 	ep := endpoints[zz.Choice("endpoint", len(endpoints))]
 	w := newWorld("", true)
+	if zz.Choice("refresh-lifespan", 2) == 1 {
+		// refresh tokens without expiry (documented setting -1): validation must still authenticate the token
+		w.Cfg.RefreshTokenLifespan = -1
+	}
 	a := parse(ep.mint(w))
 	b := parse(ep.mint(w))
 	zz.Assert(a.pfx != "" && a.k != b.k && a.s != b.s, "minted credentials are prefixed and distinct")
@@ -191,6 +195,17 @@ func ZZ_C06_e2e() {
 		observeOnly = true
 	}
 
+	if zz.Choice("warm", 2) == 1 && secrets != 2 && (ep.name == "introspect-access" || ep.name == "introspect-refresh" || ep.name == "refresh") {
+		// history: the genuine credential was successfully validated before the forgery is presented
+		// (a validation result must never be remembered by signature alone)
+		use := fosite.AccessToken
+		if ep.name != "introspect-access" {
+			use = fosite.RefreshToken
+		}
+		ok, _ := w.Introspect(a.String(), use)
+		zz.Assert(ok, "untampered credential under the current or a rotated secret is accepted (warm-up)")
+		zz.Cover("e2e:genuine-validated-before-forgery", kind != 0)
+	}
 	accepted := ep.present(w, v)
 	zz.Observe("accepted", accepted)
 	switch {
